@@ -153,8 +153,10 @@ def dataset(atoms, symprec):
 def stable(atoms, no, tol):
     """The family's conditioning rule: spglib at tol/10, tol, 10*tol reports the intended group and one
     standardized atom count.  Returns (ok, reason, dataset at tol)."""
+    from ase.geometry import cell_to_cellpar
     counts = set()
     mid = None
+    pars = []
     for sp in (tol / 10.0, tol, tol * 10.0):
         ds = dataset(atoms, sp)
         if ds is None:
@@ -162,10 +164,16 @@ def stable(atoms, no, tol):
         if ds.number != no:
             return False, "group_%s" % ("higher" if sp == tol else "unstable"), None
         counts.add(len(ds.std_types))
+        pars.append(np.asarray(cell_to_cellpar(np.asarray(ds.std_lattice))))
         if sp == tol:
             mid = ds
     if len(counts) != 1:
         return False, "std_count_unstable", None
+    # the standardized lattice itself must be stable over the window: in monoclinic / triclinic lattices two
+    # reduced cells whose lengths differ by less than the tolerance are chosen arbitrarily (presentation dependent)
+    pars = np.array(pars)
+    if np.abs(pars[:, :3] - pars[1, :3]).max() > 1e-5 * pars[1, :3].max() or np.abs(pars[:, 3:] - pars[1, 3:]).max() > 1e-3:
+        return False, "std_lattice_unstable", None
     return True, None, mid
 
 
